@@ -44,6 +44,28 @@ func runHistory(res *Result, cfg PoolCfg, ops []HOp) error {
 		if err != nil {
 			res.Count("op_err_" + op.Kind)
 		}
+		// "two queries that start after a commit is acknowledged both see it": right
+		// after the acknowledgement every branch is read by name through the second
+		// handle, whose caches (branch table, snapshots) were warmed by its reads after
+		// the previous operation, and must show what the acting handle shows
+		for name, b := range lr.Branches {
+			vac := false
+			for id := range b.Tip().Objs {
+				if lr.Deleted[id] {
+					vac = true
+				}
+			}
+			if vac {
+				continue
+			}
+			q := fmt.Sprintf("from %s@%s", lr.PoolName, name)
+			got2, err2 := env2.Query(q, 1)
+			got1, err1 := env.Query(q, 1)
+			res.Count("second_handle_branch_reads")
+			if (err1 == nil) != (err2 == nil) || strings.Join(SortedCopy(got1), "\n") != strings.Join(SortedCopy(got2), "\n") {
+				res.Fail(Failure{Kind: "oracle", Sig: "C13:acknowledged-commit-not-seen-by-second-handle:" + op.Kind, Detail: fmt.Sprintf("after %s was acknowledged, a query of branch %s started through a second handle with warm caches returns %d values (err=%v); the acting handle returns %d (err=%v)", op.Kind, name, len(got2), err2, len(got1), err1), Replay: map[string]any{"pool": cfg.String(), "history": lr.Log, "acting": got1, "second": got2}, Expected: strings.Join(got1, " "), Observed: strings.Join(got2, " ")})
+			}
+		}
 		lr.CheckCommits()
 		// second handle with warm caches
 		seen := map[ksuid.KSUID]bool{}
